@@ -169,6 +169,10 @@ func C11(p *load.Prog, r *oblig.Run) {
 		r.Add("R11.a", "analysis", p.Pos(root.Pos()), "budget").Unknown("analysis budget exceeded")
 	}
 	raceObligations(p, r, "R11.a", a, loadRaceTable(), "IndividualNodes.Compare")
+	r.Rule("R11.b", "a field written under a mutex by the concurrent workers is only read under a mutex there", 3)
+	lockConsistency(p, r, "R11.b", a, g, root)
+	r.Rule("R11.d", "each already-sent map is keyed only by individuals of the side it stands for", 6)
+	sentSides(p, r, "R11.d", concurrentRegion(g, root))
 	channelsClosed(p, r, "R11.c", []*ssa.Function{p.Func(load.PkgRoot, "createJobs"), p.Method(load.PkgRoot, "IndividualNodesCompareOptions", "processJobs"),
 		p.Method(load.PkgRoot, "IndividualNodesCompareOptions", "collectResults"), p.Method(load.PkgRoot, "IndividualNodesCompareOptions", "calculateWinners"), root})
 }
